@@ -78,6 +78,14 @@ def _template(ctx, cfg):
         tags.append((DT['HASH'], addr(hashoff)))
     if gnuoff is not None:
         tags.append((DT['GNU_HASH'], addr(gnuoff)))
+    relr = None
+    if cfg.get('relr'):
+        # a RELR table: one anchor (symbolic, even) and one bitmap naming the next word
+        wsz = cls // 8
+        anchor = ctx.uint('relr.anchor', A) & ~1
+        relroff = img.blob(enc.enc_int(anchor, wsz, little) + enc.enc_int(3, wsz, little), align=8)
+        tags += [(DT['RELR'], addr(relroff)), (DT['RELRSZ'], 2 * wsz), (DT['RELRENT'], wsz)]
+        relr = [anchor, anchor + wsz]
     other = None
     if cfg.get('both_flavours'):
         # a second table of the OTHER flavour (the gABI permits both in one object): one entry
@@ -111,7 +119,7 @@ def _template(ctx, cfg):
         img.add_shstrtab()
     # e_phentsize may exceed the size of the structure (entries padded): the program header table is walked with that stride
     data = img.build(phentsize=L.sizeof('PHDR', cls) + cfg['phslack']) if cfg.get('phslack') else img.build()
-    exp = dict(tags=tags, sel=sel, svals=svals, rels=rels, jmp=jmp, rela=rela, other=other, k=k, free=(free_tag, free_val), V=V, addr=addr,
+    exp = dict(tags=tags, sel=sel, svals=svals, rels=rels, jmp=jmp, rela=rela, other=other, relr=relr, k=k, free=(free_tag, free_val), V=V, addr=addr,
                offs=dict(str=stroff, sym=symoff, rel=reloff, jmp=jmpoff, dyn=dynoff))
     return data, exp
 
@@ -151,7 +159,11 @@ def _check_dynamic(ctx, dyn, exp, label):
     tabs = dyn.get_relocation_tables()
     rname = 'RELA' if exp['rela'] else 'REL'
     oname = 'REL' if exp['rela'] else 'RELA'
-    want_tabs = sorted([rname, 'JMPREL'] + ([oname] if exp.get('other') else []))
+    want_tabs = sorted([rname, 'JMPREL'] + ([oname] if exp.get('other') else []) + (['RELR'] if exp.get('relr') else []))
+    if exp.get('relr') and 'RELR' in tabs:
+        mask = (1 << (64 if exp['V'] is None else 64)) - 1
+        ctx.check_eq(label + '/reloc/RELR/addresses', [r['r_offset'] for r in tabs['RELR'].iter_relocations()], exp['relr'])
+        ctx.check_eq(label + '/reloc/RELR/num', tabs['RELR'].num_relocations(), 2)
     ctx.check_eq(label + '/reloc-tables', sorted(tabs), want_tabs)
     if exp.get('other') and oname in tabs:
         tab = tabs[oname]
@@ -264,6 +276,8 @@ def _instances(tier):
             out.append(dict(elfclass=cls, little=little, variant=variant, hash='gnu' if cls == 64 else 'sysv', rela=(cls == 64), rpath=True, symstr=1, layout='split'))
         out.append(dict(elfclass=cls, little=little, variant='stripped', hash='sysv', rela=(cls == 64), rpath=True, symstr=0, phslack=8))
         out.append(dict(elfclass=cls, little=little, variant='stripped', hash='gnu', rela=True, rpath=True, symstr=0, both_flavours=True))
+        out.append(dict(elfclass=cls, little=little, variant='sections', hash='gnu', rela=(cls == 64), rpath=True, symstr=0, relr=True))
+        out.append(dict(elfclass=cls, little=little, variant='stripped', hash='sysv', rela=(cls == 64), rpath=True, symstr=0, relr=True, layout='split'))
         out.append(dict(elfclass=cls, little=little, variant='sections', hash='sysv', rela=False, rpath=True, symstr=0, both_flavours=True))
         out.append(dict(elfclass=cls, little=little, variant='sections', hash='gnu', rela=(cls == 64), rpath=True, symstr=0, phslack=24, layout='split'))
     return out
